@@ -23,10 +23,14 @@ for pid in sorted(registry.PROPERTIES):
         seen.add(k)
         per.setdefault(o.rule, {}).setdefault(o.cfg, 0)
         per[o.rule][o.cfg] += 1
-    # inventory-style rules (one instance per call site in the crate) tolerate small refactors: floor at 80 % of today's count
-    for r in ("R-RESULT-USED", "R-XFER-SITE", "R-TAINT-ARITH", "R-TAINT-INDEX", "R-TAINT-ALLOC"):
+    # inventory-style rules (one instance per call site in the crate) tolerate small refactors: floor at a fraction of today's count
+    for r, frac in (("R-RESULT-USED", 0.6), ("R-XFER-SITE", 0.6), ("R-TAINT-ARITH", 0.5)):
         if r in per:
-            per[r] = {c: int(n * 0.8) for c, n in per[r].items()}
+            per[r] = {c: int(n * frac) for c, n in per[r].items()}
+    # sites of these inventories disappear when code gets safer (an index loop replaced by an iterator): only require that the rule still sees something
+    for r in ("R-TAINT-INDEX", "R-TAINT-ALLOC"):
+        if r in per:
+            per[r] = {c: 1 for c, n in per[r].items() if n >= 1}
     out[pid] = per
     bad = [o for o in obs if not o.ok]
     print(pid, {r: c for r, c in per.items()}, "violations:", len(set(o.key() for o in bad)), notes[:1])
